@@ -68,6 +68,8 @@ type c16Scen struct {
 	Default  string      `json:"default_request_content_type"`
 	Preempt  int         `json:"preempt_permille"`
 	Clients  [][]*c16Req `json:"clients"`
+	Raw      bool        `json:"provider_installed_without_the_ledger,omitempty"`
+	Noise    int         `json:"noise_round_trips_before,omitempty"` // the long-lived server: so many small round trips with header spellings of their own come first
 }
 
 var c16Alphabet = []rune("aZ09 _-.,;:!?/\\\"'<>&{}[]()=+*#@\t\nàéîõüßñçøåΩλπЖяשלוםمرحبا你好世界日本語한국어😀🚀𝔘  �퟿")
@@ -183,6 +185,10 @@ func genC16(x *Ctx) *c16Scen {
 		})
 		sc.Clients = append(sc.Clients, reqs)
 	})
+	if tp.Chance(15) {
+		sc.Noise = []int{20, 70, 300}[tp.G(3)]
+	}
+	sc.Raw = sc.Provider != "lifo" && tp.Chance(120)
 	return sc
 }
 
@@ -192,7 +198,7 @@ func runC16(x *Ctx) {
 	x.Res.ScenHash = sim.HashString(jsonStr(sc))
 	s := x.Sim
 	s.Preempt = sc.Preempt
-	cfg := &ChainCfg{Provider: sc.Provider, WCap: sc.WCap, RCap: sc.RCap}
+	cfg := &ChainCfg{Provider: sc.Provider, WCap: sc.WCap, RCap: sc.RCap, RawProvider: sc.Raw}
 	installProvider(s, cfg)
 	restful.DefaultRequestContentType(sc.Default)
 	for _, cl := range sc.Clients {
@@ -212,6 +218,20 @@ func runC16(x *Ctx) {
 			all = append(all, r)
 			r.value = c16Value(r.Seed, r.Size, r.Codec)
 		}
+	}
+	// noise: small well-formed round trips, each with an Accept and a Content-Type spelled as never before,
+	// both codecs and all codings in turn; judged like every other well-formed request
+	var noise []*c16Req
+	for i := 0; i < sc.Noise; i++ {
+		r := &c16Req{ID: 30000 + i, Codec: []string{"json", "xml"}[i%2], CTForm: 100, Coding: []string{"", "gzip", "deflate"}[i%3], Size: 24, Seed: 7000 + i, BChunks: []int{64}}
+		r.value = c16Value(r.Seed, r.Size, r.Codec)
+		byID[r.ID] = r
+		all = append(all, r)
+		noise = append(noise, r)
+	}
+	if sc.Noise > 0 {
+		x.Count("reach:aged-container")
+		x.CountN("aging-requests", sc.Noise)
 	}
 	c := restful.NewContainer()
 	c.EnableContentEncoding(true)
@@ -253,6 +273,9 @@ func runC16(x *Ctx) {
 		}
 		w := sim.NewSimWriter(nil)
 		hdr := map[string]string{"Accept": "application/" + r.Codec}
+		if r.CTForm == 100 {
+			hdr["Accept"] = fmt.Sprintf("application/%s; v=%d", r.Codec, r.ID)
+		}
 		if r.Coding != "" {
 			hdr["Accept-Encoding"] = r.Coding
 		}
@@ -279,16 +302,26 @@ func runC16(x *Ctx) {
 		}
 		return false
 	}
-	for ci, cl := range sc.Clients {
-		cl := cl
-		s.Go(fmt.Sprintf("client%d", ci), func(t *sim.Task) {
-			for _, r := range cl {
-				t.Req = r.ID
-				var f uint64
-				if r.Fault != "" {
-					f = 1
+	serveOne := func(t *sim.Task, r *c16Req) {
+		count := func(k string) {
+			if t != nil {
+				t.Count(k)
+			} else {
+				x.Count(k)
+			}
+		}
+		{
+			{
+				if t != nil {
+					t.Req = r.ID
+					var f uint64
+					if r.Fault != "" {
+						f = 1
+					}
+					t.Yield(sim.SiteStart, sim.KNote, uint64(r.ID), f)
+				} else {
+					seqReq = r.ID
 				}
-				t.Yield(sim.SiteStart, sim.KNote, uint64(r.ID), f)
 				data := append([]byte{}, r.body...)
 				if r.Members > 1 {
 					// the same entity compressed piecewise: a well-formed gzip body
@@ -297,7 +330,7 @@ func runC16(x *Ctx) {
 						for m := 0; m < r.Members; m++ {
 							data = append(data, Gzip(plain[m*len(plain)/r.Members:(m+1)*len(plain)/r.Members])...)
 						}
-						t.Count("gzip-bodies-in-several-members")
+						count("gzip-bodies-in-several-members")
 					}
 				}
 				if r.Fault == "btrail" {
@@ -316,7 +349,7 @@ func runC16(x *Ctx) {
 							data = plain
 						}
 					}
-					t.Count("fault-btrail")
+					count("fault-btrail")
 				}
 				b := &sim.SimBody{T: t, Data: data, Chunks: scaleChunks(r.BChunks, len(data), 300)}
 				hdr := map[string]string{}
@@ -335,6 +368,8 @@ func runC16(x *Ctx) {
 					hdr["Content-Type"] = r.ct + "; charset=utf-8; profile=http://example.org/p q"
 				case 8:
 					hdr["Content-Type"] = r.ct + "; charset=utf-8, " + r.ct + "; charset=utf-8" // a duplicated header folded by a proxy
+				case 100:
+					hdr["Content-Type"] = fmt.Sprintf("%s; charset=UTF-8; v=%d", r.ct, r.ID) // a spelling no earlier request used
 				case 4:
 					hdr["Content-Type"] = r.ct + " ; charset=utf-8" // optional whitespace before the parameter
 				case 3:
@@ -359,21 +394,21 @@ func runC16(x *Ctx) {
 				switch r.Fault {
 				case "btrunc":
 					b.Mode, b.FaultAt = sim.BFaultTrunc, at
-					t.Count("fault-btrunc")
+					count("fault-btrunc")
 				case "berr":
 					b.Mode, b.FaultAt = sim.BFaultErr, at
-					t.Count("fault-berr")
+					count("fault-berr")
 				case "bflip":
 					if len(data) > 0 {
 						data[at%len(data)] ^= 1 << uint(r.FaultAt%8)
 					}
-					t.Count("fault-bflip")
+					count("fault-bflip")
 				case "bhdr":
 					// destroy the coding's header; for an uncoded body, destroy the first syntax byte
 					if len(data) > 0 {
 						data[0] ^= 0xff
 					}
-					t.Count("fault-bhdr")
+					count("fault-bhdr")
 				case "bmislabel":
 					// declare a coding the body does not have
 					if r.Coding == "" {
@@ -383,12 +418,28 @@ func runC16(x *Ctx) {
 					} else {
 						hdr["Content-Encoding"] = "gzip"
 					}
-					t.Count("fault-bmislabel")
+					count("fault-bmislabel")
 				}
 				w := sim.NewSimWriter(t)
 				r.escaped = Serve(c, EntryServeHTTP, w, NewReq("POST", "/e/consume", hdr, b, int64(len(data)), r.ID))
 				r.wstatus = w.Status()
-				t.Yield(sim.SiteCheckpoint, sim.KCheckpoint, 0, 0)
+				if t != nil {
+					t.Yield(sim.SiteCheckpoint, sim.KCheckpoint, 0, 0)
+				} else {
+					seqReq = 0
+				}
+			}
+		}
+	}
+	// the long-lived server: the noise round trips are read back first, one after the other
+	for _, r := range noise {
+		serveOne(nil, r)
+	}
+	for ci, cl := range sc.Clients {
+		cl := cl
+		s.Go(fmt.Sprintf("client%d", ci), func(t *sim.Task) {
+			for _, r := range cl {
+				serveOne(t, r)
 			}
 		})
 	}
